@@ -23,6 +23,31 @@
 (* first, limit, until, paths, to_entries..., see Lib) are evaluated from   *)
 (* their jq definitions written as trees; functions it implements natively *)
 (* are given here as operators on values (Native).                         *)
+(*                                                                         *)
+(* Covered (each exercised by JqCoreGen on every run): identity, `..`,     *)
+(* .a / .a? / ."a" / .[k] / .[a:b] / .[] / .[]? and the same as suffixes   *)
+(* (incl. the engine's `T.k?` = `T | try .k`), pipe, comma, literals,      *)
+(* unary minus, [..], {k: v} with computed keys, shorthand {a} and         *)
+(* cartesian expansion (first entry outermost, first duplicate key wins),  *)
+(* "..\(q).." and @json/@text interpolation, + - * / % on the universe     *)
+(* (fractions: outside), == != < <= > >= with jq's total order, and/or/not, *)
+(* // (errors of the left side are NOT swallowed by this engine),          *)
+(* if/elif/else, try/catch, `?`, error/0,1, reduce, foreach/2,3,           *)
+(* label/break, `as` with array/object/(query)-key destructuring and ?//   *)
+(* (errors downstream of a live alternative: outside), def with closure    *)
+(* and $value parameters and recursion, path(f) with the engine's identity *)
+(* rules, getpath, paths/0,1, length, keys, has, in, type, add/0,1, range/ *)
+(* 1,2,3, map, select, empty, recurse/0,1,2, while, until, repeat, values.. *)
+(* scalars, first/last/0,1, limit, nth, isempty, any/all/0,1,2,            *)
+(* to_entries/from_entries/with_entries, tostring, tojson/fromjson (texts  *)
+(* without escapes, fractions or exponents), explode/implode, split/1,     *)
+(* ltrimstr/rtrimstr/startswith/endswith, join, sort/sort_by/group_by/     *)
+(* unique/unique_by/min/max/min_by/max_by, reverse, input/inputs over the  *)
+(* supplied list, debug/0,1 and stderr as identity with a side record,     *)
+(* input_filename.  Not covered: update operators (= |= += ...), formats   *)
+(* other than @json/@text, regular expressions, floats and big integers,   *)
+(* dates, limit/first inside path() on containers bound through variables  *)
+(* beyond the identity rule, $__loc__, getpath/setpath/delpaths updates.   *)
 (* Variable-free.                                                          *)
 (***************************************************************************)
 EXTENDS JsonVal, Query
